@@ -13,6 +13,7 @@ def run(cx):
     cx.floor("C02.R1", "Ok returns of handle()", len(h.ok_assigns), 2)
     r1_upgrade_iface(cx, h)
     r1_pop(cx, h)
+    r1_complete(cx, h)
     r1_fresh(cx, h)
     hc.check_writer_passthrough(cx, "C02.R1", h)
     r2(cx)
@@ -70,6 +71,34 @@ def r1_pop(cx, h):
     cx.check(good, "C02.R1", "handle:strip-NUL", "%s %s" % (fs.sp, body.path),
              "the read buffer is not stripped of exactly one trailing byte before parsing (pop calls: %d, other shrinking calls: %d)" % (len(pops), len(truncs)),
              note_ok="one Vec::pop on the message buffer dominates from_slice")
+
+
+def r1_complete(cx, h):
+    """a message is parsed only when it is complete: every feasible path from a read_until to the parser (within one iteration)
+    took the edge that says the last byte read is NUL (the sibling of the `incomplete` edge)"""
+    from vlib.cfg import enumerate_paths
+    body, cfg, du = h.body, h.cfg, h.du
+    fs = h.from_slice
+    ru_blocks = {t.bb for t in h.read_untils}
+    n = 0; bad = 0; witness = None
+    for t in h.read_untils:
+        if t.target is None: continue
+        hit = [False]
+        paths = enumerate_paths(cfg, t.target, lambda blk: blk.idx == fs.bb or blk.term.kind == "return" or blk.idx in ru_blocks, du=du,
+                                env0={t.dest.l: ("var", 0, None)} if t.dest is not None and not t.dest.p else None, on_limit=lambda: hit.__setitem__(0, True))
+        if hit[0]: cx.bad("C02.R1", "handle:parse-only-complete-messages", body.sp, "too many paths"); return
+        for p in paths:
+            if p[-1] != fs.bb: continue
+            n += 1
+            complete = False
+            for a, b in zip(p, p[1:]):
+                if body.blocks[a].term.kind != "switch": continue
+                for lab, d in cfg.succ[a]:
+                    if d != b and hc.classify_edge(h, (a, lab, d)) == "incomplete": complete = True        # the path took the other edge
+            if not complete: bad += 1; witness = witness or p
+    cx.check(n > 0 and not bad, "C02.R1", "handle:parse-only-complete-messages", "%s %s" % (fs.sp, body.path),
+             "%d of %d paths from read_until to the parser have not established that the bytes read end in NUL: a message cut by the end of a chunk is parsed (and its last byte dropped) instead of being handed back as tail (blocks %s)" % (bad, n, (witness or [])[:16]),
+             note_ok="%d paths, all behind `last byte == NUL`" % n)
 
 
 def r1_fresh(cx, h, rule="C02.R1"):
@@ -322,6 +351,20 @@ def r2(cx):
                         blocked.add(t_edge)      # forbid the "tail is empty" edge: what remains are executions with a non-empty tail
                 if blocked and t.bb not in cfg.reach(t.target, blocked_edges=blocked):
                     cx.ok("C02.R2", key, site, "tail used (%d reads); handle() is re-entered only on the tail.is_empty() edge" % len(uses))
+                    continue
+            if flows:
+                # ... on every way round the loop: whatever else can stand in front of the stream when handle() is called again
+                # must have been produced outside the loop (the initial empty buffer) or be derived from the tail
+                loop = cfg.reach(t.target) if t.target is not None else set()
+                strays = []
+                for k, o in Slice(body, du, extra_pass=("=chain", "=as_slice", "=take", "=by_ref", "=buf_as_slice")).origins(rd):
+                    if k != "call" or o is t or o.callee.indirect: continue
+                    # (the destination local may be shared with an arm that does carry the tail: what counts is what this call produces)
+                    if o.bb in loop and o.target is not None and t.bb in cfg.reach(o.target) and o.dest is not None \
+                       and not any(a.place is not None and a.place.l in T for a in o.args) and o.callee.name in ("new", "with_capacity", "default", "from", "to_vec", "into", "to_owned", "clone", "split_off", "drain"):
+                        strays.append(o)
+                if strays:
+                    cx.bad("C02.R2", key, site, "on some way back to handle() the bytes put in front of the stream are a fresh value (%s at %s), not the tail that the previous call returned: unprocessed bytes are dropped" % (strays[0].callee.name, strays[0].sp), witness={"call": t.sp})
                     continue
             cx.check(flows, "C02.R2", key, site,
                      "handle() is re-entered in this loop but the returned tail does not flow into the reader of the next call (reader built from locals %s)" % sorted(origin_locals),
